@@ -150,7 +150,7 @@ Codes(n, m, cells) ==
     IN r.p \o [k \in 1..(m - r.last) |-> 1]
 
 (* each row has at most one cell, columns increase with the rows *)
-WellFormed(n, m, cells) ==
+WellFormedCells(n, m, cells) ==
     /\ \A c \in cells : c[1] \in 1..n /\ c[2] \in 1..m
     /\ \A c, d \in cells : (c[1] = d[1] => c = d) /\ (c[1] < d[1] => c[2] < d[2])
 
